@@ -46,6 +46,88 @@ func tickFunc() Func {
 	}}
 }
 
+// Deferred calls are made observable through a second helper,
+//
+//	func mark(k int) { g8 = (g8*7 + k) % 1000003 }
+//
+// (or the same statement written out in a deferred function literal): the final value of g8 depends on which of the
+// deferred calls of a function ran and in which order. The rest of the generator only reads g8.
+const (
+	markName = "mark"
+	markCtr  = "g8"
+)
+
+func (g *gen) markVar() *vinfo {
+	if g.markV == nil {
+		g.markV = &vinfo{name: markCtr, typ: "int", global: true, ro: true, lo: 0, hi: 1000002, gidx: len(g.pr.Globals)}
+		g.globals = append(g.globals, g.markV)
+		g.pr.Globals = append(g.pr.Globals, Global{Name: markCtr, Type: "int"})
+	}
+	return g.markV
+}
+
+func markUpdate(k *Node) *Node {
+	return &Node{K: "assign", S: "=", A: []*Node{vr(markCtr), bin("%", bin("+", bin("*", vr(markCtr), ilit(7)), k), ilit(1000003))}}
+}
+
+// markStmt is the trace update written out (for the body of a deferred function literal).
+func (g *gen) markStmt() *Node {
+	g.markVar()
+	g.account(1)
+	g.f.sig.readsG, g.f.sig.writesG, g.f.sig.pure = true, true, false
+	g.mark("defer-mark")
+	return markUpdate(ilit(int64(g.rng(1, 9, "mk"))))
+}
+
+// markCall builds mark(k) with a constant k.
+func (g *gen) markCall() *Node {
+	g.markVar()
+	g.markFn = true
+	g.account(3)
+	g.f.sig.readsG, g.f.sig.writesG, g.f.sig.pure = true, true, false
+	g.mark("defer-mark")
+	return &Node{K: "call", S: markName, A: []*Node{ilit(int64(g.rng(1, 9, "mk")))}}
+}
+
+func markFunc() Func {
+	return Func{Name: markName, Params: []Field{{"k", "int"}}, Body: []*Node{markUpdate(vr("k"))}}
+}
+
+// observer builds an exported function that calls the exported function f and returns its result folded together with
+// the package state f left behind: the effects of the deferred calls of f itself become part of a compared value.
+func (g *gen) observer(fi int) {
+	f := g.funcs[fi]
+	sig := &fsig{name: "W" + f.name[1:], exported: true, params: f.params, results: []string{"int"}, idx: len(g.funcs)}
+	var args []*Node
+	for _, p := range f.params {
+		args = append(args, vr(p.Name))
+	}
+	var sum *Node
+	switch f.results[0] {
+	case "int":
+		sum = bin("%", vr("v1"), ilit(1009))
+	case "string", "[]byte":
+		sum = &Node{K: "len", A: []*Node{vr("v1")}}
+	default:
+		sum = ilit(0)
+	}
+	primes := []int64{1013, 1019, 1021}
+	k := 0
+	for _, v := range g.globals {
+		if v.typ == "int" && k < len(primes) && (v == g.markV || g.chance(50)) {
+			sum = bin("+", sum, bin("%", vr(v.name), ilit(primes[k])))
+			k++
+		}
+	}
+	fn := Func{Name: sig.name, Params: f.params, Results: []Field{{Type: "int"}}, Body: []*Node{
+		{K: "define", S: "v1", A: []*Node{{K: "call", S: f.name, A: args}}},
+		{K: "return", A: []*Node{sum}},
+	}}
+	g.funcs = append(g.funcs, sig)
+	g.pr.Funcs = append(g.pr.Funcs, fn)
+	g.mark("observer")
+}
+
 // hideTick hides the counter from the expression generator; the result restores it.
 func (g *gen) hideTick() func() {
 	if g.tickV == nil {
@@ -88,7 +170,7 @@ func (g *gen) observe(st *Node, v *vinfo) *Node {
 func (g *gen) stSide() *Node {
 	for tries := 0; tries < 3; tries++ {
 		var n *Node
-		switch g.weighted([]int{25, 25, 15, 12, 15, 8, 10}, "side") {
+		switch g.weighted([]int{25, 25, 15, 12, 15, 8, 10, 14}, "side") {
 		case 0:
 			n = g.stCompoundIdx()
 		case 1:
@@ -101,8 +183,10 @@ func (g *gen) stSide() *Node {
 			n = g.stMapRangeDelete()
 		case 5:
 			n = g.stDeleteNil()
-		default:
+		case 6:
 			n = g.stLitCalls()
+		default:
+			n = g.stFuncLit()
 		}
 		if n != nil {
 			return n
@@ -375,6 +459,34 @@ func (g *gen) stDeleteNil() *Node {
 		g.mark("append-nil-slice")
 	}
 	return blk(body)
+}
+
+// stFuncLit: a function literal without free variables (closures are outside the dialect) held by a local variable
+// and called at once: v := func(a0 int) int { return e }; w = v(x).
+func (g *gen) stFuncLit() *Node {
+	t, ok := g.accTarget()
+	if !ok || !g.room(6) {
+		return nil
+	}
+	g.noteWrite(t)
+	g.account(4)
+	// the body sees its parameter only
+	outer := g.f
+	g.f = &fctx{sig: &fsig{safe: true, pure: true}, noPanic: true, noGlobals: true, pure: true, inLambda: true, budget: 30, mult: 1}
+	g.push()
+	g.add(&vinfo{name: "p0", typ: "int", lo: -storeB, hi: storeB, param: true})
+	body := fitStore(g.genInt(2))
+	g.pop()
+	g.f = outer
+	arg := fitStore(g.genInt(1))
+	g.noteExpr(arg)
+	name := g.newName(false)
+	lit := &Node{K: "funclit", A: []*Node{body.n}}
+	g.mark("func-literal-local")
+	return &Node{K: "seq", B: []*Node{
+		{K: "define", S: name, A: []*Node{lit}},
+		{K: "assign", S: "=", A: []*Node{t, {K: "call", S: name, A: []*Node{arg.n}}}},
+	}}
 }
 
 // stGoto: a counting loop built with a backward goto, or a forward goto that skips a block. Label and goto are in
